@@ -1,0 +1,70 @@
+//go:build verif
+
+package aggsender
+
+import (
+	"context"
+	"time"
+
+	"github.com/agglayer/aggkit/agglayer"
+	"github.com/agglayer/aggkit/aggsender/config"
+	"github.com/agglayer/aggkit/aggsender/db"
+	"github.com/agglayer/aggkit/aggsender/types"
+	aggkitcommon "github.com/agglayer/aggkit/common"
+	"github.com/agglayer/aggkit/log"
+)
+
+// NewVerifAggSender assembles the real AggSender from caller-supplied parts (what New does,
+// minus opening the storage and building the flow from configuration).
+func NewVerifAggSender(
+	logger *log.Logger,
+	cfg config.Config,
+	storage db.AggSenderStorage,
+	aggLayerClient agglayer.AgglayerClientInterface,
+	epochNotifier types.EpochNotifier,
+	flow types.AggsenderFlow,
+	certStatusChecker types.CertificateStatusChecker,
+	l2OriginNetwork uint32,
+) *AggSender {
+	return &AggSender{
+		cfg:               cfg,
+		log:               logger,
+		storage:           storage,
+		aggLayerClient:    aggLayerClient,
+		epochNotifier:     epochNotifier,
+		status:            &types.AggsenderStatus{Status: types.StatusNone},
+		flow:              flow,
+		rateLimiter:       aggkitcommon.NewRateLimit(cfg.MaxSubmitCertificateRate),
+		l2OriginNetwork:   l2OriginNetwork,
+		certStatusChecker: certStatusChecker,
+	}
+}
+
+// VerifInit runs the start-up steps of Start that precede the send loop.
+func (a *AggSender) VerifInit(ctx context.Context) error {
+	a.status.Start(time.Now().UTC())
+	a.checkDBCompatibility(ctx)
+	a.certStatusChecker.CheckInitialStatus(ctx, a.cfg.DelayBetweenRetries.Duration, a.status)
+	if ctx.Err() != nil {
+		return ctx.Err()
+	}
+	return a.flow.CheckInitialStatus(ctx)
+}
+
+// VerifEpochTick runs one iteration of the real send loop. The status ticker is disabled for
+// the call, so the iteration is the epoch case iff the notifier's channel has an event ready.
+func (a *AggSender) VerifEpochTick(ctx context.Context) {
+	saved := a.cfg.CheckStatusCertificateInterval
+	a.cfg.CheckStatusCertificateInterval.Duration = 0
+	defer func() { a.cfg.CheckStatusCertificateInterval = saved }()
+	a.sendCertificates(ctx, 1)
+}
+
+// VerifStatusTick runs one iteration of the real send loop with the status ticker due at once;
+// the caller's notifier must hand out a channel with no event ready.
+func (a *AggSender) VerifStatusTick(ctx context.Context) {
+	saved := a.cfg.CheckStatusCertificateInterval
+	a.cfg.CheckStatusCertificateInterval.Duration = time.Nanosecond
+	defer func() { a.cfg.CheckStatusCertificateInterval = saved }()
+	a.sendCertificates(ctx, 1)
+}
